@@ -36,7 +36,7 @@ type Scenario struct {
 	Net      simnet.Config `json:"net"`
 	Workload string        `json:"workload"` // lib | camera
 
-	Authority string `json:"authority"` // ipv4 | ipv6 | host | host-noport
+	Authority string `json:"authority"`      // ipv4 | ipv6 | host | host-noport
 	User      string `json:"user,omitempty"` // as written in the URL (escaped)
 	Pass      string `json:"pass,omitempty"`
 	UserDec   string `json:"user_dec,omitempty"`
@@ -45,14 +45,14 @@ type Scenario struct {
 	HasQuery  bool   `json:"has_query"`
 	Query     string `json:"query,omitempty"` // raw
 
-	Medias     int    `json:"medias"`
-	SamePT     bool   `json:"same_pt"`     // all medias use the same payload type
-	Variant    string `json:"variant"`     // play | record
-	Transport  string `json:"transport"`   // tcp | udp
-	SetupOrder []int  `json:"setup_order"` // medias set up, in this order
-	UseSetupAll bool  `json:"use_setup_all"`
-	Packets    int    `json:"packets"`
-	KeepAlive  bool   `json:"keep_alive"` // stay long enough for keep-alives to be sent
+	Medias      int    `json:"medias"`
+	SamePT      bool   `json:"same_pt"`     // all medias use the same payload type
+	Variant     string `json:"variant"`     // play | record
+	Transport   string `json:"transport"`   // tcp | udp
+	SetupOrder  []int  `json:"setup_order"` // medias set up, in this order
+	UseSetupAll bool   `json:"use_setup_all"`
+	Packets     int    `json:"packets"`
+	KeepAlive   bool   `json:"keep_alive"` // stay long enough for keep-alives to be sent
 
 	// camera workload: what the scripted server answers to DESCRIBE.
 	Controls    []string `json:"controls,omitempty"`     // per media; "" = no attribute
@@ -89,6 +89,7 @@ var credentials = [][4]string{
 	{"usrQZ7", "pwdXK9J", "usrQZ7", "pwdXK9J"},
 	{"adm1nQ", "s3cr%2Bt%3AW", "adm1nQ", "s3cr+t:W"},
 	{"Op%40tor9", "Zq8-_.~Lm", "Op@tor9", "Zq8-_.~Lm"},
+	{"onlyUsr5", "", "onlyUsr5", ""}, // user name without password
 }
 
 func genSeg(r *core.Rand, last bool) (Seg, bool, bool) {
@@ -174,6 +175,9 @@ func gen(seed uint64, tier string) Scenario {
 		sc.Query = genQuery(r)
 	}
 	sc.Medias = r.Range(1, 4)
+	if r.Bool(0.05) {
+		sc.Medias = r.Range(5, 12) // two-digit track ids
+	}
 	sc.SamePT = r.Bool(0.4)
 	sc.Variant = "play"
 	if r.Bool(0.35) {
@@ -235,6 +239,20 @@ func (sc *Scenario) hostPort() (auth, srvIP, cliIP string, port int) {
 	return "10.0.0.1:8554", "10.0.0.1", "10.0.0.20", 8554
 }
 
+// setupAll reports whether the medias are set up with one SetupAll call (only
+// meaningful when every media is set up in description order).
+func (sc *Scenario) setupAll() bool {
+	if !sc.UseSetupAll || len(sc.SetupOrder) != sc.Medias {
+		return false
+	}
+	for i, m := range sc.SetupOrder {
+		if m != i {
+			return false
+		}
+	}
+	return true
+}
+
 // rawPath is the path as written in the URL.
 func (sc *Scenario) rawPath() string {
 	var b strings.Builder
@@ -274,7 +292,11 @@ func (sc *Scenario) url() string {
 	auth, _, _, _ := sc.hostPort()
 	u := "rtsp://"
 	if sc.User != "" {
-		u += sc.User + ":" + sc.Pass + "@"
+		u += sc.User
+		if sc.Pass != "" {
+			u += ":" + sc.Pass
+		}
+		u += "@"
 	}
 	u += auth + sc.rawPath()
 	if sc.HasQuery {
@@ -421,7 +443,7 @@ func init() {
 		"redirects (Location handling is owned by C12)",
 		"back channels",
 	}
-	f.Rule = "scenario = workload (lib: real client <-> real server; camera: real client <-> scripted camera) x stream URL (authority IPv4 / IPv6 literal / hostname with and without port; user-info absent or one of 3 credential pairs incl. escaped characters; 1..4 path segments built from plain words, unescaped sub-delims ('=', '&', ';', '+', '~', ',', ':', '@', '$', '!', '(', ')', '*', '''), percent-escapes (%20 %2F %3D %26 %3F %25 %23 %2B, lower-case hex, escaped unreserved characters, UTF-8) and segments that look like 'trackID=n'; query absent or 1..3 key=value pairs whose values may contain '/', 'trackID=n', '/trackID=n', '?', '=', ':', '@', an embedded URL, escapes - never ending in '/') x 1..4 medias (distinct or identical payload types) x variant (describe/setup/play/pause/play or announce/setup/record/pause/record) x transport (tcp/udp) x set-up order (SetupAll, one Setup per media, permuted, subset when playing) x optional keep-alive period x network (latency, TCP chunking modes 0..3 incl. 1-byte segments); camera workload adds: per-media control attribute style (relative 'trackID=n' / 'trackN' / 'stream=n' / multi-segment, absolute URL with the same or another host, leading '?', leading '/', empty, absent, '*'), Content-Base absent / absolute with or without trailing slash / other path / relative starting with '/' / other host, session-level control absent / '*' / absolute; non-trivial = the whole script ran and every set-up media was identity-checked (lib: at least one tagged packet per set-up media; camera: every SETUP request line compared); distinct = distinct canonical event log"
+	f.Rule = "scenario = workload (lib: real client <-> real server; camera: real client <-> scripted camera) x stream URL (authority IPv4 / IPv6 literal / hostname with and without port; user-info absent or one of 4 credential sets incl. escaped characters and a user name without password; 1..4 path segments built from plain words, unescaped sub-delims ('=', '&', ';', '+', '~', ',', ':', '@', '$', '!', '(', ')', '*', '''), percent-escapes (%20 %2F %3D %26 %3F %25 %23 %2B, lower-case hex, escaped unreserved characters, UTF-8) and segments that look like 'trackID=n'; query absent or 1..3 key=value pairs whose values may contain '/', 'trackID=n', '/trackID=n', '?', '=', ':', '@', an embedded URL, escapes - never ending in '/') x 1..4 medias, sometimes 5..12 (distinct or identical payload types) x variant (describe/setup/play/pause/play or announce/setup/record/pause/record) x transport (tcp/udp) x set-up order (SetupAll, one Setup per media, permuted, subset when playing) x optional keep-alive period x network (latency, TCP chunking modes 0..3 incl. 1-byte segments); camera workload adds: per-media control attribute style (relative 'trackID=n' / 'trackN' / 'stream=n' / multi-segment, absolute URL with the same or another host, leading '?', leading '/', empty, absent, '*'), Content-Base absent / absolute with or without trailing slash / other path / relative starting with '/' / other host, session-level control absent / '*' / absolute; non-trivial = the whole script ran and every set-up media was identity-checked (lib: at least one tagged packet per set-up media; camera: every SETUP request line compared); distinct = distinct canonical event log"
 	f.Assumptions = []string{
 		"'exactly the path and query of the original URL': Path is compared in the representation the library documents for its handler contexts (net/url semantics: the percent-decoded path), Query as the raw query string (bytes after the first '?', never decoded); the expected decoded path is produced by the generator, not by the library's parser",
 		"the last path segment never decodes to something ending in '/' (an escaped %2F at the very end would make 'path not ending in /' ambiguous); '.' and '..' segments, empty segments, raw '#', spaces and control characters are not generated",
